@@ -390,7 +390,8 @@ class Scen(CompScenario):
             else:
                 want = "ok:" + repr(val)
             if spec["lock"]:
-                if isinstance(val, str) or val is None:  # a failed read: whether it locks is left open
+                if isinstance(val, str) or (val is None and opc == OP_GET):
+                    # a read that failed with an error: whether it locks is left open
                     if not was_locked:
                         maybe.add(kid)
                 else:
